@@ -32,7 +32,10 @@ TRUSTED = ["model: coq/Model/CacheMachine.v (hand-written from _slos.py, _abstra
            "tied by this correspondence stream: outputs and white-box cache keys after every operation)",
            "native exqalibur behaviour (FSArray order, FSMask rule, FSMap over an empty parent array = crash) is "
            "modelled, not verified"]
-ASSUMPTIONS = ["Simulator: the model covers the invalidation policy of _evolve (circuit, heralds, mask usability) and the "
+ASSUMPTIONS = ["the keyed-cache theorems say that a cache entry is a function of the configuration it was computed under; that "
+               "a query does not modify an entry in place is covered by the repeated-query stream (the same superposed "
+               "input twice in a row, then superpositions sharing basic states, each against a fresh Simulator)",
+               "Simulator: the model covers the invalidation policy of _evolve (circuit, heralds, mask usability) and the "
                "leftover engine mask; the values probs_svd / evolve compute from the cache (merging, post-selection, "
                "detectors, performances) are covered by the implementation-vs-fresh-implementation stream only",
                "the fresh object is configured in the order set_circuit, set_cutoff, set_mask, set_input_state",
@@ -600,8 +603,11 @@ def check_backend_stream(ctx, name, circs, hists, stream, with_model):
                       else generic_signature(name.lower(), hs, fs))
                 if s2 == sig:
                     good.append(i)
+                    seen_pairs[json.dumps(cand)] = (hs, fs, fh)
             return good
         return f
+
+    seen_pairs = {}
 
     reported = set()
     for hi, k, key, cfgt in per_query:
@@ -623,10 +629,11 @@ def check_backend_stream(ctx, name, circs, hists, stream, with_model):
                 reported.add(sig)
                 hh = h[:k + 1]
                 hh = shrink(h, k, fails_like(sig))
+                hs2, fs2, fh2 = seen_pairs.get(json.dumps(hh), (hs, fs, fresh_req[key]))   # of the shrunk history
                 ctx.fail(sig, f"{name}: the result after this history differs from a fresh engine given the final "
-                              f"configuration", {"engine": name, "history": hh, "fresh": fresh_req[key],
+                              f"configuration", {"engine": name, "history": hh, "fresh": fh2,
                                                  "circuits": {str(op[1]): cdesc[op[1]] for op in hh if op[0] == "circ"}},
-                         expected=fs, observed={kk: vv for kk, vv in hs.items() if kk != "w"})
+                         expected=fs2, observed={kk: vv for kk, vv in hs2.items() if kk != "w"})
     # (ii) + (iii): the machine's prediction, step by step (the faithful machine models the history dependence)
     if with_model:
         bad_model = 0
@@ -820,8 +827,11 @@ def check_generic_stream(ctx, target, label, cdesc, hists, fresh_of, signature_o
                 fs = fr[-1] if len(fr) == len(fhs[i]) else {"c": "err"}
                 if not same_step(hs, fs, tol) and signature_of(cands[i], len(cands[i]) - 1, hs, fs) == sig:
                     good.append(i)
+                    seen_pairs[json.dumps(cands[i])] = (hs, fs)
             return good
         return f
+
+    seen_pairs = {}
 
     reported = set()
     for hi, k, key in per_query:
@@ -836,9 +846,10 @@ def check_generic_stream(ctx, target, label, cdesc, hists, fresh_of, signature_o
             if sig not in reported:
                 reported.add(sig)
                 hh = shrink(h, k, failing_subset(sig))
+                hs2, fs2 = seen_pairs.get(json.dumps(hh), (hs, fs))      # observables of the shrunk history
                 ctx.fail(sig, f"{label}: the result after this history differs from a fresh object given the final "
                               f"configuration", {"object": label, "history": hh, "circuits": cdesc},
-                         expected=fs, observed={a: b for a, b in hs.items() if a != "w"})
+                         expected=fs2, observed={a: b for a, b in hs2.items() if a != "w"})
     ctx.streams[stream] = len(hists)
     return res
 
@@ -965,6 +976,41 @@ def rand_sim_flip_history(rng, circs):
             h.append(["q", "evolve", rng.choice([a, b])])
     if h[-1][0] != "q":
         h.append(["q", "probs_svd", svd(), detectors_of(rng, rng.choice(DETECTOR_KINDS), m)])
+    return h
+
+
+def rand_sim_superposed_history(rng, circs):
+    """Queries on SUPERPOSED un-annotated inputs (several terms, complex amplitudes): the same superposition twice in a
+    row, then other superpositions sharing basic states, through evolve / probs(StateVector) / evolve_svd / probs_svd.
+    A cached evolution that a query modifies in place shows at the second query."""
+    i = rng.below(len(circs))
+    m = circs[i].m
+    pool = rng.shuffle(SUPER[m])
+    a, b, c = pool[0], pool[1], pool[2 % len(pool)]
+    amps = [((0.6, 0.0), (0.0, 0.8)), ((0.8, 0.0), (-0.6, 0.0)), ((0.0, 0.6), (0.8, 0.0)),
+            ((0.28, 0.0), (0.0, -0.96)), ((0.6, 0.0), (0.48, 0.64))]
+
+    def sup(x, y):
+        (r1, i1), (r2, i2) = rng.choice(amps)
+        return [[r1, i1, x], [r2, i2, y]]
+    h = [["circ", i]]
+    if rng.chance(1, 4):
+        h.append(["heralds", [[rng.below(m), 0]]])
+    s1 = sup(a, b)
+    first = rng.choice(["evolve_sv", "evolve_sv", "probs_sv", "evolve_svd"])
+    h.append(["q", first, s1] if first != "evolve_svd" else ["q", "evolve_svd", [[1.0, s1]]])
+    h.append(["q", "evolve_sv", s1])                                   # the same superposition again
+    for _ in range(rng.rint(1, 3)):
+        s2 = sup(*rng.choice([(a, c), (c, b), (b, a), (a, b)]))        # shares a component with the cached ones
+        kind = rng.choice(["evolve_sv", "evolve_sv", "probs_sv", "evolve_svd", "probs_svd", "evolve"])
+        if kind in ("evolve_sv", "probs_sv"):
+            h.append(["q", kind, s2])
+        elif kind == "evolve_svd":
+            h.append(["q", "evolve_svd", [[0.5, s2], [0.5, [[1.0, 0.0, rng.choice([a, b, c])]]]]])
+        elif kind == "probs_svd":
+            h.append(["q", "probs_svd", [[1.0, s2]], None])
+        else:
+            h.append(["q", "evolve", rng.choice([a, b, c])])
     return h
 
 
@@ -1238,8 +1284,9 @@ def run(ctx):
          ["q", "probs_svd", [[0.5, [[1.0, 0.0, "|{_:0},{_:1}>"]]], [0.5, [[0.6, 0.0, [1, 1]], [0.0, 0.8, [2, 0]]]]],
           ["thr", "pnr"]]]]
     for backend, n in (("SLOS", ctx.n(300, 3000)), ("Naive", ctx.n(80, 1000))):
-        hs = sim_corpus + [rand_sim_flip_history(rng, circs[:5]) if j % 5 < 2 else rand_sim_history(rng, circs[:5])
-                           for j in range(n)]
+        hs = sim_corpus + [rand_sim_flip_history(rng, circs[:5]) if j % 5 < 2 else
+                           rand_sim_superposed_history(rng, circs[:5]) if j % 5 == 2 else
+                           rand_sim_history(rng, circs[:5]) for j in range(n)]
         ctx.log(f"Simulator({backend}): {len(hs)} histories")
         check_generic_stream(ctx, "simulator:" + backend, "Simulator", cdesc, hs, sim_fresh, sim_signature,
                              f"simulator-{backend}", tol=1e-8)
